@@ -2,6 +2,7 @@ package main
 
 import (
 	"fmt"
+	"strconv"
 	"strings"
 
 	"golang.org/x/tools/go/ssa"
@@ -339,7 +340,7 @@ func c06r4(r *R) {
 			if !ok || len(ents) != 2 || ents["http"] != 80 || ents["https"] != 443 {
 				why = append(why, fmt.Sprintf("default ports come from the table %s = %v, expected http→80 and https→443 only", tab, ents))
 			}
-			if !strings.HasPrefix(arg, `fmt.Sprintf("%s:%d"`) {
+			if !strings.HasPrefix(arg, `fmt.Sprintf("%s:%d"`) && !strings.HasPrefix(arg, `fmt.Sprintf("%s:%s"`) && !(strings.HasPrefix(arg, `(($1.Host + ":") + `+tab+`[$1.Scheme]`) && strings.Count(arg, "+") == 2) {
 				why = append(why, "scheme found in the table: looked up "+arg)
 			}
 		default:
@@ -486,6 +487,12 @@ func globalIntMap(r *R, printed string) (map[string]int64, bool) {
 			if mu, ok := ins.(*ssa.MapUpdate); ok && mu.Map == mk {
 				k, ok1 := constString(mu.Key)
 				v, ok2 := constInt(mu.Value)
+				if sv, isStr := constString(mu.Value); !ok2 && isStr {
+					// "80": a port kept as text is the same table
+					if n, err := strconv.ParseInt(sv, 10, 64); err == nil && strconv.FormatInt(n, 10) == sv {
+						v, ok2 = n, true
+					}
+				}
 				if !ok1 || !ok2 {
 					return nil, false
 				}
